@@ -128,6 +128,8 @@ func (c c01Case) sig() string {
 	switch c.Space {
 	case "B":
 		ds = fmt.Sprintf("N=%d trail=%d", c.N, c.Trail)
+	case "W":
+		ds = fmt.Sprintf("wide N=%d", wideN)
 	default:
 		ds = "rows=" + rowsSig(c.Rows)
 	}
@@ -198,6 +200,8 @@ func c01Worker(ctx *rt.Ctx, job *rt.Job) []*rt.Violation {
 		return c01SpaceB(ctx, job, a)
 	case "C":
 		return c01SpaceC(ctx, job, a)
+	case "W":
+		return c01SpaceW(ctx, job, a)
 	}
 	rt.Harnessf("bad space")
 	return nil
@@ -448,6 +452,66 @@ func c01SpaceB(ctx *rt.Ctx, job *rt.Job, a c01Args) []*rt.Violation {
 	return nil
 }
 
+// ---- Space W: wide operators and column names that are not valid UTF-8 ------------------
+
+// wideRow: 1300 rows; a unique column, a 13-valued column, and two columns whose NAMES are not valid UTF-8 (a stored
+// schema must keep them byte for byte).
+func wideRow(i int) model.Row {
+	r := model.Row{"uniq": strconv.Itoa(i), "m13": strconv.Itoa(i % 13)}
+	if i%2 == 0 {
+		r["caf\xe9"] = strconv.Itoa(i % 3)
+	}
+	if i%5 == 0 {
+		r["\xff\x01"] = "v\xfe"
+	}
+	return r
+}
+
+const wideN = 1300
+
+func wideExprs() []*model.Expr {
+	ids := func(lo, hi int) []*model.Expr {
+		var k []*model.Expr
+		for i := lo; i < hi; i++ {
+			k = append(k, model.Eq("uniq", strconv.Itoa(i)))
+		}
+		return k
+	}
+	nots := func(lo, hi int) []*model.Expr {
+		var k []*model.Expr
+		for _, e := range ids(lo, hi) {
+			k = append(k, model.Not(e))
+		}
+		return k
+	}
+	out := []*model.Expr{
+		model.Eq("caf\xe9", "1"), model.Eq("\xff\x01", "v\xfe"), model.Not(model.Eq("\xff\x01", "v\xfe")), model.Eq("caf\ufffd", "1"), model.Eq("\ufffd\x01", "v\xfe"),
+		model.And(model.Eq("caf\xe9", "0"), model.Eq("\xff\x01", "v\xfe")),
+	}
+	// operators with 2, 64, 65, 200, 201, 1000, 1001 and 1300 operands (flat), and the same split over two nested operators
+	for _, w := range []int{2, 64, 65, 200, 201, 1000, 1001, wideN} {
+		out = append(out, model.Or(ids(0, w)...), model.And(nots(0, w)...), model.Or(model.Or(ids(0, w/2)...), model.Or(ids(w/2, w)...)), model.And(model.Eq("m13", "0"), model.Or(nots(0, w)...)))
+		// repeated operands: the same value several times in one list
+		out = append(out, model.Or(append(ids(0, w), ids(0, w)...)...))
+	}
+	return out
+}
+
+func c01SpaceW(ctx *rt.Ctx, job *rt.Job, a c01Args) []*rt.Violation {
+	exprs := wideExprs()
+	uex := make([]updog.Expression, len(exprs))
+	for i, e := range exprs {
+		uex[i] = e.Updog()
+	}
+	if v := c01CheckDataset(ctx, "W", wideN, 0, wideRow, nil, exprs, uex, 0, len(exprs), true); v != nil {
+		return []*rt.Violation{v}
+	}
+	ctx.Cov.Add("datasets", 1)
+	ctx.Cov.Add("wide_expressions", int64(len(exprs)))
+	ctx.Cov.Sample(1, map[string]any{"space": "W", "rows": wideN, "expressions": len(exprs), "widest_operator": wideN})
+	return nil
+}
+
 // ---- Space C: truth-table dataset ------------------------------------------------------
 
 // truthRows: the 8 membership combinations of a=1,b=1,c=1 with multiplicities 1,2,4,...,128, so that the
@@ -511,6 +575,8 @@ func c01CheckCase(ctx *rt.Ctx, c c01Case) *rt.Violation {
 	case "C":
 		rows := truthRows()
 		rowf, n = func(i int) model.Row { return rows[i] }, len(rows)
+	case "W":
+		rowf, n = wideRow, wideN
 	default:
 		rowf = func(i int) model.Row { return c.Rows[i] }
 	}
@@ -582,6 +648,7 @@ func c01Run(ctx *rt.Ctx) []*rt.Violation {
 		add("A2", c01Args{Space: "A2", Rows: 3, Depth: 1, Arity: 2}, 8)
 		add("C", c01Args{Space: "C", Depth: 2, Arity: 3}, 16)
 	}
+	add("W", c01Args{Space: "W"}, 1)
 	outs := rt.RunJobs(ctx, jobs, rt.SpawnOpt{})
 	vs := rt.Collect(ctx, outs, nil)
 	// an expression object executed, edited in place by the caller, and executed again (no cache involved)
